@@ -223,6 +223,7 @@ type EvPlan struct {
 	After int    `json:"after"` // deliver after this many traces were observed
 	Own   bool   `json:"own"`   // from its own goroutine
 	Exact bool   `json:"exact,omitempty"` // (own) the scenario guarantees an order-independent outcome: the model applies it like a quiescent delivery
+	ThenAnswer bool `json:"thenAnswer,omitempty"` // (quiescent delivery) the next client action is an answer, issued at once
 	Last  bool   `json:"last,omitempty"` // (quiescent delivery) deliver only when no task request is pending
 	WhenListening int `json:"whenListening,omitempty"` // (own) wait until this many ActiveListeningTraces were observed
 }
@@ -369,6 +370,7 @@ func (c *ProcCase) Main() {
 				quiet = append(quiet, ep)
 			}
 		}
+		skipHold := false
 		drain := func() {
 			for more := true; more; {
 				select {
@@ -393,6 +395,9 @@ func (c *ProcCase) Main() {
 				drain()
 			}
 			hold := len(quiet) > 0 || c.Hold == 2 || (c.Hold == 1 && env.pick(2) == 1)
+			if skipHold && len(pending) > 0 {
+				hold = false
+			}
 			if hold {
 				// a fake-time timer fires only when every goroutine is blocked: the engine has quiesced
 				select {
@@ -402,7 +407,11 @@ func (c *ProcCase) Main() {
 				}
 				drain()
 			}
-			if len(quiet) > 0 {
+			if skipHold && len(pending) > 0 {
+				skipHold = false
+				env.fault("answer-right-after-event")
+			} else if len(quiet) > 0 {
+				skipHold = false
 				// choose between delivering the next event and answering a pending request
 				opt := env.pick(len(pending) + 1)
 				if quiet[0].Last && len(pending) > 0 {
@@ -416,6 +425,7 @@ func (c *ProcCase) Main() {
 						L.Add("ev-err", ep.Kind, err.Error(), 0)
 					}
 					L.Add("ev-ret", ep.Kind, ep.Ref, 0)
+					skipHold = ep.ThenAnswer
 					continue
 				}
 			}
